@@ -1,19 +1,18 @@
 SPECIFICATION Spec
 CONSTANTS
-  NAMES = {"n1", "n2"}
+  NAMES = {"n1"}
   PEERS = {"p1"}
   Thr = 1
   CheckMode = "once"
-  ForgetMode = "peer"
+  ForgetMode = "name"
   RenewMode = "restart"
   W = 2
   AccN = 6
   MaxArr = 2
   MaxT = 1
   REPS = {1}
-  Garbage = FALSE
+  Garbage = TRUE
   Staged = FALSE
   PsFree = FALSE
   InitSets = {{"p1"}}
-VIEW View
-INVARIANTS InvAlertOnce
+INVARIANTS NeverFreshAfterWrongType
